@@ -42,7 +42,9 @@ def expected(c, fields, a):
     if x == "writesame":
         if fields.get("ndob"):
             return 0, 0, None
-        return 0, a["blocksize"], a["data"]
+        # one logical block as the caller hands it over: with protection information behind it (WRPROTECT non-zero on a unit
+        # formatted with PI) it is longer than the block size
+        return 0, len(a["data"]) if a.get("data") is not None else a["blocksize"], a["data"]
     if x == "list":
         return 0, fields["pll"], None
     if x == "ata":
@@ -160,7 +162,7 @@ def cases(c, rng, shard):
     for _ in range(n):
         yield harness.random_args(c, rng)
     if not c.custom:
-        for a in harness.novel_products(c, rng, limit=400):
+        for a in harness.novel_products(c, rng, limit=6000 if c.xfer == "ata" else 800):
             yield a
     if c.xfer in ("alloc", "allocarg"):
         # the allocation length left at its default
@@ -185,6 +187,15 @@ def cases(c, rng, shard):
                 if "ndob" in c.args:
                     a["ndob"] = ndob
                 yield harness.fill_derived(c, a, rng)
+                if not ndob:
+                    # the block with its protection information (8 bytes per protection interval; 16- and 64-byte formats exist)
+                    for extra in (8, 16, 64, bs):
+                        a = harness.fill_derived(c, dict(harness.random_args(c, rng), blocksize=bs), rng)
+                        if "ndob" in c.args:
+                            a["ndob"] = 0
+                        a["wrprotect"] = rng.randrange(1, 8)
+                        a["data"] = harness.pattern_bytes(bs + extra, extra)
+                        yield a
     if c.xfer == "readcd":
         from vmon.spec.datain import ReadCdF
 
